@@ -39,7 +39,7 @@ TRUSTED_COMMON = [
     'dd (BDD package) is outside the model: its operations are modelled by '
     'their meaning on sets of assignments (DESIGN §8.3)',
     'the correspondence generators: tie H is a sample (exhaustive where '
-    'coverage.exhaustive says so)',
+    'coverage.exhaustive_part says so)',
     'tools/py2coq.py, tools/vlib/coqlit.py (Python -> Gallina writers) and '
     'the comparison evaluated inside Coq',
 ]
@@ -485,6 +485,11 @@ def load_known():
 def write_evidence(ctx, level, violations):
     cov = dict(ctx.cov)
     cov['samples'] = cov.get('samples', [])[:8] or ['(none)']
+    # schema: `exhaustive` is a boolean; a plug-in may describe the part of
+    # the run that enumerated a finite space completely in words
+    if isinstance(cov.get('exhaustive'), str):
+        cov['exhaustive_part'] = cov['exhaustive']
+        cov['exhaustive'] = False      # the run as a whole also samples
     cov['obligations'] = len(ctx.obligations)
     cov['discharged'] = ctx.discharged
     cov['obligation_names'] = ctx.obligations
